@@ -2,7 +2,7 @@
 // (internal/btconn Dial/Accept) and records one ndjson line per handshake / policy scenario.
 // spec/Trace_MSE.tla judges every line against spec/MSE.tla.
 //
-//	c12 -mode hs  -n N -seed S [-grid] [-shard i/k] -out f   bare mse.Stream endpoints on an in-memory duplex pipe
+//	c12 -mode hs  -n N -seed S [-grid] [-frag cases.ndjson] [-shard i/k] -out f   bare mse.Stream endpoints on an in-memory duplex pipe
 //	c12 -mode pol -scen scenarios.json -seed S -out f         btconn.Dial / Accept against scripted peers over loopback TCP
 //	c12 -mode iso -sched schedules.ndjson -seed S -out f      2-3 simultaneous incoming handshakes with distinct initial payloads (iso.go)
 //	c12 -mode ses -sched scenarios.ndjson -seed S -out f      real torrent.Session dialing a raw scripted listener under every encryption setting (ses.go)
@@ -290,7 +290,8 @@ type hsCase struct {
 	Provide  int
 	SelPol   string
 	KeyMode  string
-	Loose    bool // B is the hostile receiver of the overlay shim: crypto_select is sent unvalidated
+	Loose    bool   // B is the hostile receiver of the overlay shim: crypto_select is sent unvalidated
+	Fam      string // "frag": pads / first-read sizes come from TLC (MC_MSE FragCases); "" = generated here
 }
 
 var postSizes = []int{1, 1000, 2500}
@@ -438,7 +439,7 @@ func runHS(cs hsCase, rng *rand.Rand) map[string]any {
 		}
 	}
 	return map[string]any{
-		"op": "HS", "padA": cs.Pads[0], "padB": cs.Pads[1], "padC": cs.Pads[2], "padD": cs.Pads[3],
+		"op": "HS", "fam": cs.Fam, "padA": cs.Pads[0], "padB": cs.Pads[1], "padC": cs.Pads[2], "padD": cs.Pads[3],
 		"chA": cs.ChA.class(), "chB": cs.ChB.class(), "frA": frA, "frB": frB, "ia": cs.IA,
 		"provide": cs.Provide, "selpol": cs.SelPol, "keymode": cs.KeyMode, "sel": selGot, "loose": b2i(cs.Loose),
 		"ra": ra.res, "ca": ra.cipher, "rb": rb.res, "cb": rb.cipher,
@@ -504,7 +505,40 @@ func genCase(rng *rand.Rand, randomPads bool) hsCase {
 	return cs
 }
 
-func modeHS(n int, seed int64, grid bool, shard, nshard int, out *bufio.Writer) {
+// fragCase is one case of the fragmentation family printed by TLC (spec/MC_MSE.tla FragCases): the pads of step 1 / step 2
+// and the size of the first read of each side (MSE!FragFr: key only / inside the pad / one byte short / whole message).
+type fragCase struct {
+	PadA int `json:"padA"`
+	PadB int `json:"padB"`
+	FrA  int `json:"frA"`
+	FrB  int `json:"frB"`
+}
+
+func readFragCases(file string) []fragCase {
+	if file == "" {
+		return nil
+	}
+	f, err := os.Open(file)
+	if err != nil {
+		panic(err)
+	}
+	defer f.Close()
+	var cases []fragCase
+	sc := bufio.NewScanner(f)
+	for sc.Scan() {
+		if len(bytes.TrimSpace(sc.Bytes())) == 0 {
+			continue
+		}
+		var c fragCase
+		if err := json.Unmarshal(sc.Bytes(), &c); err != nil {
+			panic(err)
+		}
+		cases = append(cases, c)
+	}
+	return cases
+}
+
+func modeHS(n int, seed int64, grid bool, shard, nshard int, frag []fragCase, out *bufio.Writer) {
 	rng := rand.New(rand.NewSource(seed)) // case generation only: identical in every shard
 	emit := func(m map[string]any) {
 		b, _ := json.Marshal(m)
@@ -523,6 +557,21 @@ func modeHS(n int, seed int64, grid bool, shard, nshard int, out *bufio.Writer) 
 			hangs++
 		}
 		emit(m)
+	}
+	// the fragmentation family generated by TLC: the transport delivers exactly frA / frB bytes to the first read of A / B
+	// (the sizes are recorded again from the transport and judged as observed); PadC, PadD, payload and selection rotate
+	for _, fc := range frag {
+		// a well-formed handshake (right key, both methods offered, payload within the limit): it has to complete
+		cs := hsCase{IA: iaVals[rng.Intn(len(iaVals))], Provide: 3, SelPol: []string{"preferRC4", "preferPlain"}[rng.Intn(2)], KeyMode: "same"}
+		cs.Pads = [4]int{fc.PadA, fc.PadB, padVals[rng.Intn(len(padVals))], padVals[rng.Intn(len(padVals))]}
+		rest := []string{"one", "max", "rand"}
+		cs.ChA = chunking{First: fc.FrA, Rest: rest[rng.Intn(3)]}
+		cs.ChB = chunking{First: fc.FrB, Rest: rest[rng.Intn(3)]}
+		cs.Fam = "frag"
+		rs := rng.Int63()
+		if mine() {
+			emitRun(cs, rs)
+		}
 	}
 	if grid {
 		// the full grid of boundary pads; chunking / payload / selection rotate with the cell
@@ -973,6 +1022,7 @@ func main() {
 	outp := flag.String("out", "", "output ndjson")
 	oneCase := flag.String("case", "", "one: JSON of a single handshake case")
 	sched := flag.String("sched", "", "iso / ses: ndjson file with the schedules / session scenarios generated by TLC")
+	fragFile := flag.String("frag", "", "hs: ndjson file with the fragmentation cases generated by TLC (run before the generated cases)")
 	hto := flag.Int("hangms", 20000, "hs: a handshake that takes longer than this is recorded as hanging")
 	flag.Parse()
 	hsTimeout = time.Duration(*hto) * time.Millisecond
@@ -1001,7 +1051,7 @@ func main() {
 			w.WriteByte('\n')
 		}
 	case "hs":
-		modeHS(*n, *seed, *grid, si, sk, w)
+		modeHS(*n, *seed, *grid, si, sk, readFragCases(*fragFile), w)
 	case "pol":
 		modePol(*scen, *seed, *reps, w)
 	case "iso":
